@@ -571,6 +571,7 @@ class FM:
         return hash(('FM', self.v))
 
     def __repr__(self):
+        TICK.tick('meta_repr')
         return f'FM({self.v})'
 
 
@@ -624,6 +625,7 @@ class FK:
         return self.n < other.n
 
     def __repr__(self):
+        TICK.tick('key_repr')
         return f'FK({self.n})'
 
 
